@@ -88,6 +88,7 @@ func c12Class(p byte) int {
 
 type c12Dec struct {
 	name string
+	ctx  string // "" or how the decoder object was used before this read (part of the violation key)
 	// returns value, consumed (-1 when the API does not report it), accepted
 	f func(data []byte) (uint64, int, bool)
 }
@@ -100,31 +101,77 @@ func (p *c12Probe) Decode(d *types.Decoder) error {
 	return err
 }
 
+// c12Probe2 reads a lead-in integer and then the integer under test from the same decoder.
+type c12Probe2 struct{ lead, v uint64 }
+
+func (p *c12Probe2) Decode(d *types.Decoder) error {
+	l, err := d.DecodeInteger()
+	if err != nil {
+		return err
+	}
+	p.lead = l
+	v, err := d.DecodeInteger()
+	p.v = v
+	return err
+}
+
+// c12CursorDecoders: the decoders that keep a cursor, used as their callers use them — the natural
+// under test is NOT the first thing read from the decoder object. The lead-in is the canonical
+// encoding of a value of each length class (1, 2 and 9 bytes); a failure to read the lead-in itself
+// is reported by the plain decoders, here it counts as "rejected".
+func c12CursorDecoders() []c12Dec {
+	var out []c12Dec
+	for _, lv := range []uint64{0, 300, 1 << 60} {
+		lead := c12RefEncode(lv)
+		lv := lv
+		ctx := fmt.Sprintf("after-lead-of-%d-bytes", len(lead))
+		out = append(out,
+			c12Dec{"telemetry.Decoder.ReadNatural", ctx, func(d []byte) (uint64, int, bool) {
+				dec := telemetry.NewDecoder(append(append([]byte(nil), lead...), d...))
+				if l, err := dec.ReadNatural(); err != nil || l != lv {
+					return 0, -1, false
+				}
+				v, err := dec.ReadNatural()
+				return v, dec.Pos() - len(lead), err == nil
+			}},
+			c12Dec{"types.Decoder.DecodeInteger", ctx, func(d []byte) (uint64, int, bool) {
+				var p c12Probe2
+				n, err := types.NewDecoder().DecodeWithConsumed(append(append([]byte(nil), lead...), d...), &p)
+				return p.v, n - len(lead), err == nil && p.lead == lv
+			}})
+	}
+	return out
+}
+
 func c12Decoders() []c12Dec {
+	return append(c12PlainDecoders(), c12CursorDecoders()...)
+}
+
+func c12PlainDecoders() []c12Dec {
 	return []c12Dec{
-		{"types.Decoder.DecodeUint", func(d []byte) (uint64, int, bool) {
+		{"types.Decoder.DecodeUint", "", func(d []byte) (uint64, int, bool) {
 			v, err := types.NewDecoder().DecodeUint(d)
 			return v, -1, err == nil
 		}},
-		{"types.Decoder.DecodeInteger", func(d []byte) (uint64, int, bool) {
+		{"types.Decoder.DecodeInteger", "", func(d []byte) (uint64, int, bool) {
 			var p c12Probe
 			n, err := types.NewDecoder().DecodeWithConsumed(d, &p)
 			return p.v, n, err == nil
 		}},
-		{"utilities.DeserializeU64", func(d []byte) (uint64, int, bool) {
+		{"utilities.DeserializeU64", "", func(d []byte) (uint64, int, bool) {
 			v, err := utilities.DeserializeU64(types.ByteSequence(d))
 			return uint64(v), -1, err == nil
 		}},
-		{"PVM.ReadUintVariable", func(d []byte) (uint64, int, bool) {
+		{"PVM.ReadUintVariable", "", func(d []byte) (uint64, int, bool) {
 			v, n, ex := PVM.ReadUintVariable(d)
 			return v, n, ex == PVM.ExitContinue
 		}},
-		{"telemetry.Decoder.ReadNatural", func(d []byte) (uint64, int, bool) {
+		{"telemetry.Decoder.ReadNatural", "", func(d []byte) (uint64, int, bool) {
 			dec := telemetry.NewDecoder(d)
 			v, err := dec.ReadNatural()
 			return v, dec.Pos(), err == nil
 		}},
-		{"fuzz.compactDecode", func(d []byte) (uint64, int, bool) {
+		{"fuzz.compactDecode", "", func(d []byte) (uint64, int, bool) {
 			v, n := compactDecode(d)
 			return v, n, n != 0
 		}},
@@ -213,6 +260,9 @@ func c12CheckDec(r *vlib.Run, decs []c12Dec, in []byte) {
 		r.Transition()
 		c := c12Case{Mode: "dec", Input: vlib.Hex(in)}
 		key := fmt.Sprintf("l=%d", l)
+		if d.ctx != "" {
+			key += "," + d.ctx
+		}
 		switch {
 		case p:
 			r.Violation(d.name, "go-panic", key, fmt.Sprintf("input %x: Go panic %s", in, msg), c)
